@@ -15,7 +15,7 @@ func init() {
 	// C08.range is shared: an out-of-box range makes the file handler panic in AppendUint
 	register("C03", func(e *Env) { serveLoop(e, "C03") }, c03Limit("C03.limit"), c03Index, c08Range, c03HexWidth,
 		// the buffered connection is on every read path: a dangling node pointer is a peer-triggerable panic
-		c13TailPtr, c13Release, c13Window, c03Cap, c07Found, c03EOFConv, c13Cursors, c14Clamp, c08Reuse)
+		c13TailPtr, c13Release, c13Window, c03Cap, c07Found, c03EOFConv, c13Cursors, c14Clamp, c08Reuse, c20DivZero)
 }
 
 const pkgErrs = Mod + "/pkg/common/errors"
